@@ -68,6 +68,10 @@ def fuel : Nat := 4000
 
 def handleDefer : List String → String
   | ["emu", p] => match parseProg p with | some P => showObs (emu fuel P) | none => "bad-op"
+  | ["emustate", p] => match parseProg p with
+    | some P => let r := emuState fuel P
+                s!"off={r.1} psd={match r.2.1 with | none => "null" | some d => toString d} ps={r.2.2.1} ds={r.2.2.2}"
+    | none => "bad-op"
   | ["ref", p] => match parseProg p with | some P => showObs (ref fuel P) | none => "bad-op"
   | _ => "bad-op"
 
